@@ -171,10 +171,7 @@ func genWire(c *RNG, allowReserved bool) wireD {
 			w.items = append(w.items, wItem{id: ids[i] + 1, val: c.Bytes(c.Pick(0, 0, 1, 2, 17, 255, c.Intn(40)))})
 		}
 	case 3:
-		w.profile = c.Intn(65536)
-		if w.profile == 0xBEDE || w.profile == 0x1000 {
-			w.profile = 0x4242
-		}
+		w.profile = int(legacyProfile(c))
 		w.body = c.Bytes(4 * c.Pick(0, 1, 2, 5))
 	}
 	if w.kind == 1 || w.kind == 2 {
